@@ -279,6 +279,18 @@ class Verifier(ExprMixin, StmtMixin, CallMixin, LibMixin, SpecMixin):
         g = z3.simplify(goal) if not z3.is_quantifier(goal) else goal
         if z3.is_true(g):
             o.verdict, o.backend, o.ms, o.model = "unsat", "simplifier", 0.0, None
+        elif z3.is_false(g):
+            # the obligation is "this point is unreachable" (a certainly-unbound read, an explicit raise): refuted as soon as the
+            # path is feasible.  Feasibility is judged like everywhere else in the executor: on the quantifier-free part of the
+            # path condition (first with everything, briefly).
+            r = solve.prove(st.full_pc(), goal, 3000, external=False)
+            if r["verdict"] == "unknown":
+                r = solve.reach(st.full_pc())
+                o.note = note + " [path feasibility judged on the quantifier-free part of the path condition]"
+            o.verdict, o.backend, o.ms = r["verdict"], r["backend"], r["ms"]
+            o.model = self.model_input(r["model"]) if r.get("model") is not None else None
+            if o.verdict != "unsat":
+                self.degraded = True
         else:
             # once something in this function failed, later obligations get a short budget (they are often
             # consequences of the same defect and only cost time); verdicts stay sat/unsat/unknown
